@@ -6,9 +6,9 @@ import MpVerif.C19.Model
 * `copy <s0> <d0> <len>`                  -> `ok`      CopyLink entry
 * `m2m <s0> <slen> <d0> <dlen>`           -> `ok`      Many2Many/One2Many entry
 * `slack <s> <con> <slk>`                 -> `ok`      Range2Slk entry
-* `run`                                   -> `run wellfed=<b> sib=<b> plainsafe=<b> edges=<n>`
+* `run`                                   -> `run wellfed=<b> sib=<b> closed=<b> noclash=<b> edges=<n>`
 * `con <cell>` / `var <cell>`             -> `<hex>`   delivered name of a constraint / variable-or-objective cell
-* `leaf <cell>`                           -> `<b>`
+* `dvars <cell>..` / `dcons <cell>..`     -> `belowfree=<b> uncounted=<b>`   hypotheses on a set of delivered cells
 * `sf <hex> <hex> ...`                    -> `<b>`     suffixFreeB
 * `np <mode> <colhex|-|0> <rowhex|-|0> <nv> <ndv> <ncon> <nalg> <nobj> <objno> <multi>`
       -> `none` | `error` | `names ub=<b> V <hex>.. C <hex>.. O <hex>..`   (`-` absent file, `0` empty file)
@@ -44,6 +44,7 @@ structure DSt where
   ops : List Op := []      -- reversed
   fin : St := {}
   E : List Edge := []
+  R : List (Nat × Nat) := []
 
 def b2s (b : Bool) : String := if b then "1" else "0"
 
@@ -67,14 +68,15 @@ def handle (d : DSt) (ws : List String) : DSt × String :=
     | _, _, _, _ => (d, "bad-op")
   | ["slack", a, b, c] =>
     match a.toNat?, b.toNat?, c.toNat? with
-    | some a, some b, some c => ({ d with ops := Op.slack a b c :: d.ops }, "ok")
+    | some a, some b, some c => ({ d with ops := (expandSlack a b c).reverse ++ d.ops }, "ok")
     | _, _, _ => (d, "bad-op")
   | ["run"] =>
     let ops := d.ops.reverse
     let fin := run d.init ops
     let E := edges d.init ops
-    ({ d with fin := fin, E := E },
-     s!"run wellfed={b2s (wellFed d.init ops)} sib={b2s (sibDistinctB E)} plainsafe={b2s (plainSafeB E)} edges={E.length}")
+    let R := plainClosure E.length E (plainPairs E)
+    ({ d with fin := fin, E := E, R := R },
+     s!"run wellfed={b2s (wellFed d.init ops)} sib={b2s (sibDistinctB E)} closed={b2s (closedB E R)} noclash={b2s (noClashB E R)} edges={E.length}")
   | ["con", c] =>
     match c.toNat? with
     | some c => (d, toHex (deliveredConName d.fin c))
@@ -83,9 +85,13 @@ def handle (d : DSt) (ws : List String) : DSt × String :=
     match c.toNat? with
     | some c => (d, toHex (deliveredVarName d.fin c))
     | none => (d, "bad-op")
-  | ["leaf", c] =>
-    match c.toNat? with
-    | some c => (d, b2s (leafB d.fin d.E c))
+  | "dvars" :: cs =>
+    match cs.mapM String.toNat? with
+    | some D => (d, s!"belowfree={b2s (belowFreeB d.R D)} uncounted={b2s (uncountedB d.fin D)}")
+    | none => (d, "bad-op")
+  | "dcons" :: cs =>
+    match cs.mapM String.toNat? with
+    | some D => (d, s!"belowfree={b2s (belowFreeB d.R D)} uncounted=1")
     | none => (d, "bad-op")
   | "sf" :: hs =>
     match hs.mapM fromHex with
